@@ -142,14 +142,14 @@ def toneValue (t : Token) (kind variant : String) : PRes Mods :=
     else .ok (.number (ParseWord.digitsToNat (t.value.filter (· ≠ 48))))
   else .panic "curr_token_to_modifier: unreachable!()"
 
-/-- `curr_token_to_modifier` (parser.rs:550-579) on a token known to be a feature -/
+/-- `curr_token_to_modifier` (parser.rs:550-579) on a token known to be a feature: `+`, `-`, one alpha letter, `-` and an
+    alpha letter; anything else is a tone's digits (or `unreachable!()`) -/
 def tokenToModifier (t : Token) (kind variant : String) : PRes Mods :=
-  match t.value with
-  | [43] => .ok (.bin .pos)
-  | [45] => .ok (.bin .neg)
-  | [c] => if isAlphaLetter c then .ok (.alpha (.alpha c)) else toneValue t kind variant
-  | [45, c] => if isAlphaLetter c then .ok (.alpha (.inv c)) else toneValue t kind variant
-  | _ => toneValue t kind variant
+  if t.value = [43] then .ok (.bin .pos)
+  else if t.value = [45] then .ok (.bin .neg)
+  else if t.value.length = 1 && isAlphaLetter (t.value.headD 0) then .ok (.alpha (.alpha (t.value.headD 0)))
+  else if t.value.length = 2 && t.value.headD 0 = 45 && isAlphaLetter (t.value.getD 1 0) then .ok (.alpha (.inv (t.value.getD 1 0)))
+  else toneValue t kind variant
 
 def nodeIndex (variant : String) : Option Nat :=
   match variant with
@@ -744,18 +744,17 @@ inductive TermStep where
   | push (s : PS) (more : Bool)
 
 /-- the shared tail of the loops of `get_input` and `get_output` (parser.rs:1016-1031, 1064-1078): an empty term
-    must be followed by `,`; a diacritic directly after a term is an error - after an EMPTY term (`t,,ʰ`) it is the
-    `unreachable!()` of the `match … last()`; then an optional `,` -/
-def termStep (site : String) (term : List PItem) (s1 : PS) : PRes TermStep :=
+    must be followed by `,`; a diacritic directly after a non-empty term is an error (after an EMPTY term, `t,,ʰ`, there
+    is no element it could belong to and the stray token is left to the caller - the repair of D30); then an optional `,` -/
+def termStep (term : List PItem) (s1 : PS) : PRes TermStep :=
   let (cm, s2) := if term.isEmpty then s1.expect .comma else (true, s1)
   if term.isEmpty && !cm then .ok (.stop s2)
-  else if isDiacritic s2.cur.kind then
-    (match term.getLast? with
-     | some it => .err ⟨"UnexpectedDiacritic", [(it.pos.start, it.pos.stop), (s2.cur.start, s2.cur.stop)]⟩
-     | none => .panic site)
   else
-    let (cm2, s3) := s2.expect .comma
-    .ok (.push s3 cm2)
+    match (if isDiacritic s2.cur.kind then term.getLast? else none) with
+    | some it => .err ⟨"UnexpectedDiacritic", [(it.pos.start, it.pos.stop), (s2.cur.start, s2.cur.stop)]⟩
+    | none =>
+      let (cm2, s3) := s2.expect .comma
+      .ok (.push s3 cm2)
 
 /-- `get_input` (parser.rs:1000-1037) -/
 def inputLoop : Nat → PS → List (List PItem) → PRes (List (List PItem) × PS)
@@ -774,7 +773,7 @@ def inputLoop : Nat → PS → List (List PItem) → PRes (List (List PItem) × 
            | some _ => .err (colErr "UnknownCharacter" s1.pos)
            | none => .panic "get_input: value.chars().next().unwrap()")
         else
-          match termStep "get_input: unreachable!()" term s1 with
+          match termStep term s1 with
           | .ok (.stop s2) => .ok (inputs, s2)
           | .ok (.push s3 true) => inputLoop fuel s3 (inputs ++ [term])
           | .ok (.push s3 false) => .ok (inputs ++ [term], s3)
@@ -815,7 +814,7 @@ def outputLoop : Nat → PS → List (List PItem) → PRes (List (List PItem) ×
              | .ok t => .err (colErr "EmptyOutput" t.start)
              | .err e => .err e | .panic p => .panic p | .outOfFuel p => .outOfFuel p)
           else
-            match termStep "get_output: unreachable!()" term s1 with
+            match termStep term s1 with
             | .ok (.stop s2) => .ok (outputs, s2)
             | .ok (.push s3 true) => outputLoop fuel s3 (outputs ++ [term])
             | .ok (.push s3 false) => .ok (outputs ++ [term], s3)
